@@ -345,9 +345,19 @@ pub fn schedules(max_len: usize) -> Vec<Vec<usize>> {
 }
 
 pub fn run(ctx: &Ctx, rep: &mut Report, unit: &mut usize) {
+    run_grid(ctx, rep, unit, false)
+}
+
+/// The round-trip clause of C01 on long streams: the chained (encoder -> decoder) half of the
+/// grid for single-size schedules, drained after every call.
+pub fn run_roundtrip(ctx: &Ctx, rep: &mut Report, unit: &mut usize) {
+    run_grid(ctx, rep, unit, true)
+}
+
+fn run_grid(ctx: &Ctx, rep: &mut Report, unit: &mut usize, roundtrip_only: bool) {
     let prop = ctx.prop.clone();
-    let max_len = ctx.tier.pick(2, 3);
-    let total = ctx.tier.pick(8usize << 20, 64 << 20);
+    let max_len = if roundtrip_only { 1 } else { ctx.tier.pick(2, 3) };
+    let total = if roundtrip_only { ctx.tier.pick(4usize << 20, 32 << 20) } else { ctx.tier.pick(8usize << 20, 64 << 20) };
     let max_calls = ctx.tier.pick(100_000usize, 2_000_000);
     let scheds = schedules(max_len);
     let mut configs = 0u64;
@@ -357,6 +367,9 @@ pub fn run(ctx: &Ctx, rep: &mut Report, unit: &mut usize) {
             for shape in SHAPES {
                 for drain in DRAINS {
                     for chained in [false, true] {
+                        if roundtrip_only && (!chained || drain == DrainApi::ConsumeLen) {
+                            continue;
+                        }
                         // very long unrollings for the largest calls only in the thorough tier
                         let big = sched.iter().any(|z| *z > 60_000);
                         let cfg = Config { schedule: sched.clone(), method, shape, drain, chained, total: if big && ctx.tier == Tier::Thorough { 256 << 20 } else { total }, max_calls };
@@ -371,10 +384,13 @@ pub fn run(ctx: &Ctx, rep: &mut Report, unit: &mut usize) {
         }
     }
     // read faults: EINTR failures interleaved with short reads
-    for sched in [vec![16usize], vec![100], vec![1000, 16], vec![5000]] {
+    for sched in if roundtrip_only { vec![vec![1000usize, 16]] } else { vec![vec![16usize], vec![100], vec![1000, 16], vec![5000]] } {
         for shape in SHAPES {
             for drain in DRAINS {
                 for chained in [false, true] {
+                    if roundtrip_only && !chained {
+                        continue;
+                    }
                     grid.push(Config { schedule: sched.clone(), method: Method::EncodeReadFaulty, shape, drain, chained, total, max_calls: max_calls / 4 });
                 }
             }
